@@ -248,6 +248,13 @@ SCANNER_WALKERS = [
 ]
 
 
+SCANNER_EXEMPT = {
+    "expr_uses_json_stringify:Expr::Closure.0":
+        "closure parameters are bare identifiers: the parser (exprs_to_params) builds them with `default: None` and the "
+        "placeholder type `_`, so nothing can be nested in them",
+}
+
+
 def scanners(F, rep):
     EX, ST = AST + "Expr", AST + "Statement"
     uni = [a for a in F.adts if a.startswith(AST)]
@@ -261,7 +268,7 @@ def scanners(F, rep):
                 continue
             n += 1
             rep.functions.add(f.path)
-            walker_check(F, rep, "SCANNERS", f, adt, bear, (EX, ST), family=fam)
+            walker_check(F, rep, "SCANNERS", f, adt, bear, (EX, ST), family=fam, exempt=SCANNER_EXEMPT)
             # catch-all: variants with children that fall into `_ =>`
             sw = primary_dispatch(f, adt)
             if sw is None or not sw["otherwise_live"]:
